@@ -4,7 +4,7 @@
      - returns a non-OK status, has had exactly the first `budget` bytes of bs accepted and leaves
        the stream exhausted when budget < |bs| (so that every later write of >= 1 byte fails too).
    Statements only; proofs in PrimFacts, ObjFacts, VaFacts, SliceFacts, FileFacts. *)
-From Sbdf Require Import ImpCall Gen.Prog ImpBase ImpFacts7W ImpFactsFrameW.
+From Sbdf Require Import ImpCall Gen.Prog ImpBase ImpFacts7W ImpFactsFrameW ImpFactsTsEnd.
 From Coq Require Import List.
 From Sbdf Require Import File PrimFacts SevenBit ObjFacts VaFacts SliceFacts MdFacts TmFacts FileFacts.
 
@@ -112,3 +112,11 @@ Theorem C13_source_write_7bit : forall v B, int_min <= v <= int_max -> 0 <= B ->
     outb fin = ztake B (enc7 v).
 Proof. exact write7_correct. Qed.
 Print Assumptions C13_source_write_7bit.
+
+(* the end-of-table marker (sbdf_ts_write_end) under every budget *)
+Theorem C13_source_ts_write_end : forall B, 0 <= B ->
+  exists f0, forall f, (f0 <= f)%nat -> exists fin,
+    callE prog_env f prog_sbdf_ts_write_end [tok] [] B = OReturn (VInt (if 3 <=? B then SBDF_OK else SBDF_ERROR_IO)) fin /\
+    outb fin = ztake B [223; 91; SBDF_TABLEEND_SECTIONID].
+Proof. exact ts_write_end_source. Qed.
+Print Assumptions C13_source_ts_write_end.
